@@ -99,8 +99,8 @@ func (x *Value) CompareAndSwap(old, new any) bool {
 	return false
 }
 
-func LoadInt32(p *int32) int32      { pt(p, false); return *p }
-func StoreInt32(p *int32, v int32)  { pt(p, true); *p = v }
+func LoadInt32(p *int32) int32         { pt(p, false); return *p }
+func StoreInt32(p *int32, v int32)     { pt(p, true); *p = v }
 func AddInt32(p *int32, d int32) int32 { pt(p, true); *p += d; return *p }
 func CompareAndSwapInt32(p *int32, old, new int32) bool {
 	pt(p, true)
@@ -110,8 +110,8 @@ func CompareAndSwapInt32(p *int32, old, new int32) bool {
 	}
 	return false
 }
-func LoadInt64(p *int64) int64      { pt(p, false); return *p }
-func StoreInt64(p *int64, v int64)  { pt(p, true); *p = v }
+func LoadInt64(p *int64) int64         { pt(p, false); return *p }
+func StoreInt64(p *int64, v int64)     { pt(p, true); *p = v }
 func AddInt64(p *int64, d int64) int64 { pt(p, true); *p += d; return *p }
 func CompareAndSwapInt64(p *int64, old, new int64) bool {
 	pt(p, true)
@@ -121,8 +121,8 @@ func CompareAndSwapInt64(p *int64, old, new int64) bool {
 	}
 	return false
 }
-func LoadUint32(p *uint32) uint32     { pt(p, false); return *p }
-func StoreUint32(p *uint32, v uint32) { pt(p, true); *p = v }
+func LoadUint32(p *uint32) uint32          { pt(p, false); return *p }
+func StoreUint32(p *uint32, v uint32)      { pt(p, true); *p = v }
 func AddUint32(p *uint32, d uint32) uint32 { pt(p, true); *p += d; return *p }
 func CompareAndSwapUint32(p *uint32, old, new uint32) bool {
 	pt(p, true)
@@ -132,8 +132,8 @@ func CompareAndSwapUint32(p *uint32, old, new uint32) bool {
 	}
 	return false
 }
-func LoadUint64(p *uint64) uint64     { pt(p, false); return *p }
-func StoreUint64(p *uint64, v uint64) { pt(p, true); *p = v }
+func LoadUint64(p *uint64) uint64          { pt(p, false); return *p }
+func StoreUint64(p *uint64, v uint64)      { pt(p, true); *p = v }
 func AddUint64(p *uint64, d uint64) uint64 { pt(p, true); *p += d; return *p }
 func CompareAndSwapUint64(p *uint64, old, new uint64) bool {
 	pt(p, true)
